@@ -47,6 +47,7 @@ struct AllocCfg {
 	// (0 = off). Models a machine running out of memory at an arbitrary point inside one library call.
 	uint64_t failCountdown = 0;
 	uint64_t injectedFailures = 0;
+	bool injectionInFlight = false; // an injected std::bad_alloc is propagating (cleared when the call returns to the harness)
 };
 extern AllocCfg g_alloc;
 extern bool g_rawMemory;
